@@ -160,8 +160,11 @@ def run_shard(args):
     return stats.result(error)
 
 
+SCRATCH = os.path.realpath(REPO) != "/repo"      # a mutation run against a scratch copy: keep outputs apart
+
+
 def save_failure(pid, sub, case, message, seed, tier):
-    d = os.path.join(VERIF, "failures", pid)
+    d = os.path.join(VERIF, "failures", "_scratch" if SCRATCH else "", pid)
     os.makedirs(d, exist_ok=True)
     path = os.path.join(d, f"{sub}-{digest(case)[:8]}.json")
     with open(path, "w") as f:
@@ -363,6 +366,9 @@ def main(argv):
     ev = jsonable(ev)
     os.makedirs(os.path.join(VERIF, "evidence"), exist_ok=True)
     evpath = os.path.join(VERIF, "evidence", pid + ".json")
+    if SCRATCH:
+        os.makedirs(os.path.join(VERIF, "failures", "_scratch"), exist_ok=True)
+        evpath = os.path.join(VERIF, "failures", "_scratch", pid + ".evidence.json")
     evidence_problem = None
     try:
         validate_evidence(ev)
